@@ -612,6 +612,111 @@ example : PosCounts [([(0, 5), (1, 2)], 2), ([(1, 2), (2, 2)], 1), ([(2, 2)], 1)
       = .ok [Slot.cand 0, Slot.tie [1, 2]] := by
   refine ⟨by decide +kernel, by decide +kernel, by decide +kernel⟩
 
+/-! ### ScoreVoting with truncation that leaves every candidate a grade -/
+
+theorem wTotal_cons (q : Rat × Int) (cs : CScores) : wTotal (q :: cs) = q.2.toNat + wTotal cs := by
+  simp [wTotal]
+
+theorem wTotal_eq_totalCount {cs : CScores} (h : ∀ q ∈ cs, 0 ≤ q.2) : ((wTotal cs : Nat) : Int) = totalCount cs := by
+  induction cs with
+  | nil => simp [wTotal, totalCount]
+  | cons q rest ih =>
+    have h0 := h q List.mem_cons_self
+    have := ih (fun x hx => h x (List.mem_cons_of_mem _ hx))
+    rw [wTotal_cons]
+    unfold totalCount at this ⊢
+    simp only [List.map_cons, List.sum_cons]
+    omega
+
+
+
+theorem convert_ok_of {cfg : Cfg} {votes : SProfile}
+    (h : ∀ p ∈ rawScores votes, ∃ cs', correctOne cfg p.2 (totalVotes votes) = .ok cs' ∧ expand cs' ≠ []) :
+    ∃ agg, convert cfg votes = .ok agg := by
+  unfold convert
+  have hcorr : ∃ t, correctedScores cfg votes = .ok t ∧ ∀ p ∈ t, expand p.2 ≠ [] := by
+    unfold correctedScores
+    simp only
+    generalize rawScores votes = raw at h
+    induction raw with
+    | nil => exact ⟨[], rfl, by simp⟩
+    | cons q rest ih =>
+      obtain ⟨t', ht', hne'⟩ := ih (fun p hp => h p (List.mem_cons_of_mem _ hp))
+      obtain ⟨cs', hcs', hne''⟩ := h q List.mem_cons_self
+      refine ⟨(q.1, cs') :: t', ?_, ?_⟩
+      · rw [List.mapM_cons, hcs', ht']; rfl
+      · intro p hp
+        rcases List.mem_cons.mp hp with rfl | hp
+        · exact hne''
+        · exact hne' p hp
+  obtain ⟨t, ht, hne'⟩ := hcorr
+  rw [ht]
+  change ∃ agg, aggregate cfg.fn t = .ok agg
+  unfold aggregate
+  apply mapM_ok_of_forall
+  intro p hp
+  obtain ⟨v, hv⟩ := aggFn_ok_of_ne_nil cfg.fn (hne' p hp)
+  refine ⟨(p.1, v), ?_⟩
+  unfold aggregateOne
+  rw [hv]; rfl
+
+theorem trimmed_length (l : List Rat) (c : Nat) : (C12.trimmed l c).length = l.length - c - c := by
+  unfold C12.trimmed
+  simp [List.length_drop]
+
+/-- **ScoreVoting with truncation never raises on a real profile when every candidate keeps a grade**: no unscored
+    value, cutoff `c` (the configured count, or `int(n_votes · fraction)`), and every candidate with at least
+    `min_count` grades has more than `2c` of them. -/
+theorem score_total_trunc (cfg : Cfg) (hU : cfg.unscored = .none) (votes : SProfile) (hpos : PosCounts votes) (c : Nat)
+    (hc : match cfg.trunc with
+      | .off => False
+      | .frac r => Py.pyInt (((totalVotes votes : Int) : Rat) * r) = (c : Int)
+      | .count k => k = c)
+    (hleave : ∀ p ∈ rawScores votes, ¬ totalCount p.2 < cfg.minCount → 2 * (c : Int) < totalCount p.2) (n : Nat) :
+    ∃ r, scoreVoting cfg votes n = .ok r := by
+  have hconv : ∃ agg, convert cfg votes = .ok agg := by
+    apply convert_ok_of
+    intro p hp
+    have hgood := goodT_rawScores hpos p hp
+    have hne : votes ≠ [] := by
+      intro h0
+      rw [h0] at hp
+      cases hp
+    have hV := totalVotes_pos hpos hne
+    have htc := totalCount_pos hgood
+    by_cases hmin : totalCount p.2 < cfg.minCount
+    · refine ⟨_, C12.score_min_count_eq_spec cfg p.2 _ hmin, ?_⟩
+      exact expand_ne_nil_of_pos (p := (cfg.bottom, cfg.minCount)) List.mem_cons_self (by simp only; omega)
+    · have hnn : ∀ q ∈ p.2, 0 ≤ q.2 := fun q hq => le_of_lt (hgood.2.1 q hq)
+      obtain ⟨cs', h1, h2, _⟩ := C12.score_truncation_eq_spec cfg hU p.2 (totalVotes votes) hmin hgood.1 hnn c (by
+        have hV' : totalVotes votes ≠ 0 := by omega
+        cases ht : cfg.trunc with
+        | off => rw [ht] at hc; exact hc
+        | frac r =>
+          rw [ht] at hc
+          simp only at hc ⊢
+          rw [if_pos hV']
+          exact hc
+        | count k => rw [ht] at hc; exact hc)
+      refine ⟨cs', h1, ?_⟩
+      intro he
+      have hl := congrArg List.length h2
+      rw [sortR_length, he, trimmed_length, sortR_length, expand_length] at hl
+      have hw := wTotal_eq_totalCount hnn
+      have := hleave p hp hmin
+      simp at hl
+      omega
+  obtain ⟨agg, h⟩ := hconv
+  exact ⟨getNBest agg n, by unfold scoreVoting; rw [h]; rfl⟩
+
+/-- non-vacuity: drop the lowest and the highest grade of every candidate -/
+example : PosCounts [([(0, 5), (1, 2)], 2), ([(0, 1), (1, 4)], 1)] ∧
+    (∀ p ∈ rawScores [([(0, 5), (1, 2)], 2), ([(0, 1), (1, 4)], 1)], ¬ totalCount p.2 < 0 →
+      2 * ((1 : Nat) : Int) < totalCount p.2) ∧
+    scoreVoting { fn := .mean, unscored := .none, minCount := 0, trunc := .count 1, bottom := 0 }
+      [([(0, 5), (1, 2)], 2), ([(0, 1), (1, 4)], 1)] 1 = .ok [Slot.cand 0] := by
+  refine ⟨by decide +kernel, by decide +kernel, by decide +kernel⟩
+
 /-! ### gluing selections -/
 
 theorem foldl_inv {α β : Type} (P : β → Prop) (f : β → α → β) : ∀ (l : List α) (b : β), P b →
@@ -1270,9 +1375,6 @@ theorem aggregate_getD {fn : Agg} {t : ScoreTable} {agg : Votes} (h : aggregate 
     rw [← hfy] at this
     exact this
 
-theorem wTotal_cons (q : Rat × Int) (cs : CScores) : wTotal (q :: cs) = q.2.toNat + wTotal cs := by
-  simp [wTotal]
-
 /-- removing `cc ≥ 1` copies of a grade that is present lowers the number of grades -/
 theorem wTotal_setCount_lt {cs : CScores} (hnd : (ckeys cs).Nodup) {m : Rat} (hm : ∃ q ∈ cs, q.1 = m ∧ 0 < q.2)
     {cc : Int} (hcc : 1 ≤ cc) : wTotal (setCount cs m (getCount cs m - cc)) + 1 ≤ wTotal cs := by
@@ -1495,17 +1597,6 @@ theorem mapM_ok_mem_rev {α β : Type} {f : α → Except Err β} : ∀ {l : Lis
         · exact ⟨a, List.mem_cons_self, ha⟩
         · obtain ⟨x, hx, hfx⟩ := ih hr y hy
           exact ⟨x, List.mem_cons_of_mem _ hx, hfx⟩
-
-theorem wTotal_eq_totalCount {cs : CScores} (h : ∀ q ∈ cs, 0 ≤ q.2) : ((wTotal cs : Nat) : Int) = totalCount cs := by
-  induction cs with
-  | nil => simp [wTotal, totalCount]
-  | cons q rest ih =>
-    have h0 := h q List.mem_cons_self
-    have := ih (fun x hx => h x (List.mem_cons_of_mem _ hx))
-    rw [wTotal_cons]
-    unfold totalCount at this ⊢
-    simp only [List.map_cons, List.sum_cons]
-    omega
 
 /-- without unscored value and truncation, a corrected grade dict of a real profile has distinct grades and no negative
     count -/
